@@ -14,6 +14,7 @@ func init() {
 				c.FetchHelperRules("C06", s, "att")
 				c.FetchHelperRules("C06", s, "prop")
 				c.BadgerBufferDiscipline("C11")
+				c.StoreCommit("C03", s) // a write that fails is reported as a failure
 				c.RecordBeforeApprove("C06", s, "att")
 				c.RecordBeforeApprove("C06", s, "prop")
 			}
